@@ -159,8 +159,75 @@ def run(ctx):
                     failures -= 1
                     continue
                 break
+    # PEP 646: a fixed-length tuple hint with unpacked fixed-length child tuples is the flattened fixed-length tuple
+    # (which the model covers): same verdict on every object, whatever the draw and the entry point
+    unp = unpacked_tuple_probe()
+    ctx.extra['unpacked_tuple_probe'] = unp if 'probe_failed' in unp else {'cases': unp.get('cases'), 'differing': unp.get('differing', [])[:5]}
+    ctx.evaluations += unp.get('cases', 0) if isinstance(unp.get('cases'), int) else 0
+    if 'probe_failed' in unp or unp.get('differing'):
+        if ctx.report({'clause': 'missed_detection', 'stream': 'unpacked_tuple'}, {'observed': unp.get('differing', unp)[:3] if 'differing' in unp else unp},
+                      'a fixed-length tuple hint with an unpacked child tuple is not checked like the flattened tuple hint') == 'violation':
+            failures += 1
     if proof_err is not None and not failures:
         ctx.broken(f'{PROP} ({proof_err.what})', proof_err.log)
+
+
+def unpacked_tuple_probe():
+    import subprocess
+    from harness.common import PY, impl_env
+    code = r'''
+import json, itertools, warnings
+warnings.simplefilter('ignore')
+from typing import Unpack
+from beartype import BeartypeConf, beartype
+from beartype.door import is_bearable, die_if_unbearable
+from beartype.roar import BeartypeDoorHintViolation, BeartypeCallHintViolation
+TYPES = [int, str, bytes, bool, float]
+GOOD = {int: 1, str: 'a', bytes: b'b', bool: True, float: 0.5}
+BAD = {int: 'x', str: 2, bytes: 'c', bool: 'no', float: 'f'}
+def verdict(obj, hint, conf, entry):
+    try:
+        if entry == 'is_bearable':
+            return is_bearable(obj, hint, conf=conf)
+        if entry == 'die_if_unbearable':
+            die_if_unbearable(obj, hint, conf=conf); return True
+        @beartype(conf=conf)
+        def f(x: hint): return None
+        f(obj); return True
+    except (BeartypeDoorHintViolation, BeartypeCallHintViolation):
+        return False
+    except Exception as e:
+        return 'raised ' + type(e).__name__
+cases, differing = 0, []
+for pre, mid, post in itertools.product(range(0, 3), range(1, 4), range(0, 3)):     # an empty unpacked child is rejected as unsupported
+    ts = [TYPES[i % 5] for i in range(pre + mid + post)]
+    if not ts:
+        continue
+    inner = tuple[tuple(ts[pre:pre + mid])] if mid else tuple[()]
+    for spell in ('star', 'Unpack'):
+        unpacked = Unpack[inner]
+        hint = tuple[(*ts[:pre], unpacked, *ts[pre + mid:])] if spell == 'Unpack' else eval(
+            'tuple[(*ts[:pre], *inner, *ts[pre + mid:])]')
+        plain = tuple[tuple(ts)] if ts else tuple[()]
+        good = tuple(GOOD[t] for t in ts)
+        objs = [good, good[:-1], good + (0,), ()]
+        for i, t in enumerate(ts):
+            objs.append(good[:i] + (BAD[t],) + good[i + 1:])
+        for conf in (BeartypeConf(), BeartypeConf(is_random=False)):
+            for entry in ('is_bearable', 'die_if_unbearable', 'param'):
+                for o in objs:
+                    cases += 1
+                    a, b = verdict(o, hint, conf, entry), verdict(o, plain, conf, entry)
+                    if a != b:
+                        differing.append({'hint': repr(hint), 'flattened': repr(plain), 'object': repr(o), 'entry': entry,
+                                          'is_random': conf.is_random, 'unpacked_verdict': a, 'flattened_verdict': b})
+print(json.dumps({'cases': cases, 'differing': differing[:20]}))
+'''
+    p = subprocess.run([PY, '-c', code], capture_output=True, text=True, env=impl_env(), timeout=300)
+    try:
+        return json.loads(p.stdout.strip().splitlines()[-1])
+    except Exception:  # noqa
+        return {'probe_failed': (p.stderr or 'no output')[-600:]}
 
 
 def user_generic_probe():
